@@ -45,6 +45,10 @@ def render(cmds, bpa, variant):
                     lines.append(".resb %d" % it["cnt"])
                 elif it["k"] == "insn":
                     lines.append(INSN[it["cpu"]] % it["imm"])
+                elif it["k"] == "lab":
+                    lines.append("%s:" % it["n"])
+                elif it["k"] == "ref":
+                    lines.append(".dc16 %s" % it["n"])
                 else:
                     d = {1: ".db", 2: ".dc16", 4: ".dc32"}[it["w"]]
                     lines.append("%s %s" % (d, ", ".join(spell(int.from_bytes(bytes(v[:it["w"]]), "little"), 0 if (st + vi) % 3 == 1 else (st + vi) % 3)
